@@ -228,7 +228,7 @@ SANITIZE = True        # thorough tier: reduced pass against an ASan build of th
 SANITIZE_SCALE = 0.05
 
 SUBCHECKS = [
-    Subcheck("sfile", _cases(SFILE_ENTRIES, True), check_sfile, classify, quick=2000, thorough=100000),
-    Subcheck("recfile", _cases(REC_ENTRIES, False), check_recfile, classify, quick=1200, thorough=60000),
-    Subcheck("io", _cases(IO_ENTRIES, True), check_io, classify, quick=800, thorough=40000),
+    Subcheck("sfile", _cases(SFILE_ENTRIES, True), check_sfile, classify, quick=6000, thorough=100000),
+    Subcheck("recfile", _cases(REC_ENTRIES, False), check_recfile, classify, quick=3600, thorough=60000),
+    Subcheck("io", _cases(IO_ENTRIES, True), check_io, classify, quick=2400, thorough=40000),
 ]
